@@ -112,12 +112,12 @@ theorem eval_genSizeComp (hg : EnvGen cx.env) (hl : EnvGen loc) (c : Comparison 
       ⟨fun h => Nat.eq_of_mul_eq_mul_right hm h, fun h => by rw [h]⟩⟩
   cases hc : c.val with
   | byte n =>
-    simp only
+    simp only [sizeLhsS]
     have hb : c.val.mult = 1 := by rw [hc]; rfl
     rw [← hc]
     refine key _ cx.file.size (eval_numAcc ap hg hl .size) ?_ ?_ ?_ <;> rw [hb] <;> simp
   | word n | block n | kilo n | mega n | giga n | tera n =>
-    simp only
+    simp only [sizeLhsS]
     rw [← hc]
     have hq := hdiv ((cx.file.size + c.val.mult - 1) / c.val.mult) c.val.count
     have e := eval_roundUp ap hg hl c.val.mult hm
